@@ -103,7 +103,7 @@ func classifyRoundTrip(o pobs, got json.RawMessage, handlers int) string {
 		return "path_slash_not_routed/" + o.fw
 	case c.Loc == "header" && o.fw == "fiber" && handlers == 1 && edgeSpace(o.val):
 		return "fiber_header_space_trimmed" // only values with a blank at an edge of an element
-	case c.Loc == "cookie" && c.Kind == "styled" && (strings.ContainsAny(atoms, " ,;\"\\") || !isASCII(atoms)):
+	case c.Loc == "cookie" && (c.Kind == "styled" || c.Kind == "pass") && (strings.ContainsAny(atoms, " ,;\"\\") || !isASCII(atoms)):
 		return "cookie_value_bytes_stripped_by_client" // styled cookies are written unescaped; JSON cookies are query-escaped and survive
 	case c.Loc == "cookie" && o.fw == "gin" && strings.Contains(atoms, "+") && handlers == 1:
 		return "gin_cookie_plus_unescaped_by_framework"
